@@ -29,3 +29,4 @@ MODULES["C09"] += ["QuillModel.Props.C09Progress"]
 THEOREMS["C09"] += ["Backend.C09_blocked_queue_drains", "Backend.C09_blocked_call_resumes_concurrent"]
 THEOREMS["C06"] += ["Backend.C06_flush_log_returns_concurrent_retry"]
 MODULES["C06"] += ["QuillModel.Props.C09Progress"]
+THEOREMS["C06"] += ["Backend.C06_flush_log_returns_concurrent_total"]
